@@ -928,7 +928,7 @@ def run_api(api, theory, cfg):
 
 def transforms_for(rng, n_random):
     """(s, subst) pairs: powers of two, powers of ten, arbitrary factors over 8 decades, and the index substitution"""
-    out = [(2.0 ** -13, False), (2.0 ** 13, False), (1e-4, False), (1e4, True), (1.0, True)]
+    out = [(2.0 ** -13, False), (2.0 ** 13, False), (1e-4, False), (1e4, True), (1.0, True), (1e-6, False)]   # 1e-6: microns -> metres
     for _ in range(n_random):
         out.append((lg(rng, 1e-4, 1e4), rng.random() < 0.4))
     return out
@@ -1014,6 +1014,82 @@ def stage_explore(ctx):
         bo = None
         for s, subst in [(1e-4, False), (lg(rng, 1e-4, 1e4), True)] + ([(2.0 ** 13, False), (1.0, True)] if ctx.tier == "thorough" else []):
             bo = explore_one(ctx, "Multisphere", "cross", base, s, subst, bo)
+
+
+def stage_sequence(ctx):
+    """History x units: ONE theory object per theory computes a short series of particles that share index, medium and
+    wavelength but differ in size and position, first in microns, then re-expressed in metres (x 1e-6), millimetres,
+    and kilometre-sized units, and with the index substitution - all in one process.  Every result has to equal its
+    micron counterpart: a memo / cache keyed on rounded lengths, or on the particle without the wave vector, shows here
+    and nowhere in a single rescaled calculation."""
+    import numpy as np
+    ths = _theories()
+    rng = ctx.subrng("sequence")
+    seq = [(1e-6, False), (1e-3, False), (1.0, True), (1e6, False), (3.7e-6, True)]
+    for name, th in ths.items():
+        if name == "Lens(Tmatrix)" and ctx.tier != "thorough":
+            continue
+        kind = th["scs"][0]
+        detkind = rng.choice(th["dets"])
+        base0 = gen_cfg(rng, gen_sc(rng, kind), detkind)
+        if name in ("Tmatrix", "Lens(Tmatrix)"):
+            base0["pol"] = [1, 0]
+        # one-factor siblings of one request: the SAME particle at another wavelength / under another polarisation / at
+        # another place / in another medium / with another index (what a cache keyed on the particle alone would confuse),
+        # kept adjacent; the series is run forwards in microns and backwards for every second re-expression, so that a
+        # result that depends on the call before it differs between the two sides of the property's relation
+        bases = []
+        b = dict(base0); b["lam"] = base0["lam"] * 0.79; bases.append(b)
+        bases.append(base0)
+        if name not in ("Tmatrix", "Lens(Tmatrix)"):
+            b = dict(base0); b["pol"] = [0.8, -0.6] if base0["pol"] != [0.8, -0.6] else [0, 1]; bases.append(b)
+        b = dict(base0); b["sc"] = shift_sc(base0["sc"], base0["sc"], 0.35); bases.append(b)
+        b = dict(base0); b["nm"] = 1.21 if base0["nm"] != 1.21 else 1.1; bases.append(b)
+        b = dict(base0); b["sc"] = map_sc(base0["sc"], lambda x: x, lambda n: n * 1.03); bases.append(b)
+        for f, dx in ((0.83, 0.4), (1.21, -0.7)):
+            b = dict(base0)
+            b["sc"] = map_sc(base0["sc"], lambda x, f=f: x * f, lambda n: n)      # sizes AND positions scaled by f ...
+            b["sc"] = shift_sc(b["sc"], base0["sc"], dx)                          # ... then put back near the original place
+            bases.append(b)
+        theory = th["make"]()
+        api = "holo" if name != "MieSuperposition" else "field"
+        outs = [run_api(api, theory, b) for b in bases]
+        for q, (sf, subst) in enumerate(seq):
+            series = list(enumerate(zip(bases, outs)))
+            for i, (b, o) in (series[::-1] if q % 2 == 0 else series):
+                ctx.explored += 1
+                ctx.count("sequence:%s" % name)
+                data = dict(kind="sequence", theory=name, api=api, bases=bases, index=i, s=sf, subst=subst)
+                try:
+                    out = run_api(api, theory, transform(b, s=sf, subst=subst))
+                except Exception as e:  # noqa
+                    ctx.violation("sequence:%s:raises" % name, "%s of %s raises %s after re-expressing lengths (s=%r) in a series"
+                                  % (api, name, type(e).__name__, sf), data)
+                    continue
+                if not close_vec(out, o, th["tol"]):
+                    err = float(np.max(np.abs(out - o)) / max(np.max(np.abs(o)), 1e-300)) if out.shape == o.shape else None
+                    data["rel_err"] = err
+                    ctx.violation("sequence:%s" % name, "%s of %s: particle %d of a series computed with one theory object changes when "
+                                  "all lengths are multiplied by %r%s (relative difference %r)"
+                                  % (api, name, i, sf, " and the index substitution is applied" if subst else "", err), data)
+                else:
+                    ctx.nontriv(("sequence", name, i, sf, subst))
+
+
+def shift_sc(sc, ref, dx):
+    """move [sc] so that its (first) centre sits at [ref]'s (first) centre + (dx, 0, 0)"""
+    def first_c(s):
+        return s["members"][0]["c"] if s["kind"] == "spheres" else s["c"]
+    c0, c1 = first_c(ref), first_c(sc)
+    d = [c0[0] + dx - c1[0], c0[1] - c1[1], c0[2] - c1[2]]
+
+    def mv(s):
+        s = dict(s)
+        s["c"] = [s["c"][0] + d[0], s["c"][1] + d[1], s["c"][2] + d[2]]
+        return s
+    if sc["kind"] == "spheres":
+        return dict(kind="spheres", members=[mv(m) for m in sc["members"]])
+    return mv(sc)
 
 
 def two_colour(base, s, subst):
@@ -1114,6 +1190,7 @@ def run(ctx):
     guarded(ctx, "params", stage_params, ctx)
     guarded(ctx, "cross", stage_cross, ctx)
     guarded(ctx, "explore", stage_explore, ctx)
+    guarded(ctx, "sequence", stage_sequence, ctx)
     guarded(ctx, "two_colour", stage_two_colour, ctx)
     ctx.notes.append("largest relative difference observed in the exploration (tolerance 1e-9; 1e-6 for Multisphere / T-matrix): "
                      + ", ".join("%s %.1e" % kv for kv in sorted(MAXERR.items())))
